@@ -449,13 +449,16 @@ pub(crate) fn check_range<P: crate::common::Pack>(cip: usize, mk: fn(Reader, u64
     let mut img = [0u8; 64];
     fill_any(&mut img[..cip]);
     img[cip] = 1;
-    let d = ref_digest(&img[..cip]);
+    // symbolically the stand-in digest of O-hash; in a native replay (no stubs) the real one
+    let d = if is_symbolic() { ref_digest(&img[..cip]) } else { *blake3::hash(&img[..cip]).as_bytes() };
     let mut i = 0;
     while i < 32 {
         img[cip + 1 + i] = d[i];
         i += 1;
     }
     native_set_crc(&mut img, cip, 33, true);
+    // the packs' empty pointer tables are read at 60: natively they need their checksum
+    native_set_crc(&mut img, 60, 0, true);
     // optionally alter one byte of the body or of the stored digest
     let alter: bool = kani::any();
     let pos: usize = kani::any();
